@@ -31,6 +31,8 @@ def configs(tier, seed):
            dict(name="screen after Plate.merge", h="merged", rows=6),
            dict(name="screen r=3 a=2 mappings of 300 entries (ids past 256 in use)", h="screen", rows=3, arity=2, extra=0, cycles=2, treat=C, samples=C,
                 plates="each", big_map=300),
+           dict(name="screen r=3 a=1 built without outcomes, plates observed afterwards (set_observed)", h="screen", rows=3, arity=1, extra=0,
+                cycles=2, treat=C, samples=C, plates="each", late_obs=True),
            # explicit mappings that list exactly the rows' samples / conditions, with ids in reverse name order
            dict(name="screen r=3 a=2 explicit mappings over exactly the rows' entities, ids not in name order", h="screen", rows=3, arity=2,
                 extra=0, cycles=2, treat=C, samples=C, plates="each", big_map=0),
@@ -122,6 +124,13 @@ def _build(ctx, data, cfg):
                 m = mask[r2]
                 break
         mask.append(m)
+    if cfg.get("late_obs"):
+        # a screen built without outcomes, whose observed plates are filled in afterwards (Screen.set_observed)
+        s = data.Screen(treatment_names=np.array(tn[:R]), treatment_doses=np.array(td[:R], dtype=float),
+                        sample_names=np.array(sn[:R]), plate_names=np.array(pn[:R]), control_treatment_name=ctrl, **kw)
+        if any(mask):
+            s.set_observed(np.array(mask, dtype=bool), np.array([o for o, m in zip(obs, mask) if m], dtype=float))
+        return s
     s = data.Screen(treatment_names=np.array(tn[:R]), treatment_doses=np.array(td[:R], dtype=float),
                     sample_names=np.array(sn[:R]), plate_names=np.array(pn[:R]),
                     observations=np.array(obs, dtype=float), observation_mask=np.array(mask, dtype=bool),
